@@ -38,6 +38,16 @@ class P:
         srcs += [g.program(rnd.choice([1, 2, 3])) for _ in range(600 if tier == "quick" else 8000)]
         srcs += G.heredoc_corpus() + G.arith_corpus()
         down = [hx(s) for s in srcs]
+        # trees built from alias text: multi-line values, here-documents inside substitutions inside here-documents and arithmetic,
+        # substitutions opened in the value and closed in the source
+        def al(t):
+            return ",".join("%s=%s" % (hx(k), hx(v)) for k, v in t.items())
+        atabs = [{"a": "cat <<E\n`cat <<F\nF\n`\nE\n"}, {"a": "(( $(cat <<E\nx\nE\n) +"}, {"a": "echo $(( `cat <<E\nx\nE\n` +"}, {"a": "cat <<E\n$(( $(cat <<F\nx\nF\n) +"},
+                 {"a": "{ b\nc; }"}, {"a": "for i in 1; do b\nc\ndone"}, {"a": "if x\nthen y\nfi"}, {"a": "case x in\ny) z\nw;;\nesac"}, {"a": "echo $(cat <<E\nx\nE\n)"},
+                 {"a": "echo 'p\nq'"}, {"a": "cat <<E\nbody\nE\necho after"}, {"a": "echo \"$(b\nc)\" $(( 1 +\n2 ))"}, {"a": "b ", "b": "cat <<-E\n\tx\n\tE\n"},
+                 {"a": "echo $(cat <<E; cat <<F\n1\nE\n2\nF\n) `cat <<G\ng\nG\n`"}, {"a": "x=$(cat <<E\n$(cat <<F\nf\nF\n)\nE\n) y"}]
+        asrcs = ["a", "a\n", "a\n1 ))\n", "a\n1 ))\nE\n", "{ a; }", "( a )", "a | a", "if a; then a; fi", "while a; do a; done", "a\n1 ))", "x=1 a", "a z", "a; a"]
+        down += ["%s\t%s" % (hx(s_), al(t_)) for t_ in atabs for s_ in asrcs]
         alpha = ["a", "1", "x", "*", "?", "[", "]", "!", "^", "-", "\\", ".", "/", "(", ")", "+", "=", " ", "\n", "é", "\xff", "$", "~", ":", "<", ">", "&", "|", "%", "0x", "08", "<<", ">>", "64", "-1"]
         strs = ["".join(t).encode("latin-1", "replace") if False else "".join(t) for t in itertools.product(alpha, repeat=1)]
         strs = [""] + ["".join(t) for n in (1, 2, 3 if tier != "quick" else 2) for t in itertools.product(alpha, repeat=n)]
